@@ -51,3 +51,23 @@ fn registration_counts_follow_the_reference_model() {
         }
     }
 }
+
+/// the game API registers positions: shuffling back to a position reports a draw exactly at its third occurrence
+#[test]
+fn third_occurrence_through_the_game_api_is_a_draw() {
+    use chess::evaluate::GameEnding;
+    use chess::game::game::Game;
+    let b = setup(&[(A1, Piece::King, Color::White), (B1, Piece::Rook, Color::White), (H8, Piece::King, Color::Black), (G8, Piece::Rook, Color::Black)], Color::White);
+    let mut game = Game::from_board(b, 1);
+    let shuffle = [(A1, A2), (H8, H7), (A2, A1), (H7, H8)];
+    for round in 1..=2 {
+        for (i, (f, t)) in shuffle.iter().enumerate() {
+            assert!(game.check_game_over_for_current_turn().is_none(), "round {} ply {}: no position has occurred three times yet", round, i);
+            game.apply_chess_move_by_from_to_coordinates(*f, *t).unwrap();
+            game.board_mut().toggle_turn();
+        }
+        let ending = game.check_game_over_for_current_turn();
+        if round == 1 { assert!(ending.is_none(), "second occurrence of the start position is not a draw: {:?}", ending); }
+        else { assert!(matches!(ending, Some(GameEnding::Draw)), "third occurrence of the start position must be reported as drawn: {:?}", ending); }
+    }
+}
